@@ -10,18 +10,20 @@ COQ = dict(imports=["Model.Plan", "Spec.C01"], in_ty="input01", out_ty="pres (li
            corr="corr_C01", decide="check_C01", inclass="inclass_C01", model="model_C01")
 SUITES = {"cmd": cs.SUITE}
 cleanup = cs.cleanup
-THEOREMS = ["C01_plan_exact", "C01_total", "C01_model_holds", "C01_decider_sound", "C01_inclass", "C01_normalisation", "C01_upgrade_heads_applies_all"]
+THEOREMS = ["C01_whole_command_model", "C01_whole_command_decider_sound", "C01_plan_exact", "C01_total", "C01_model_holds", "C01_decider_sound", "C01_inclass", "C01_normalisation", "C01_upgrade_heads_applies_all"]
 TRUSTED = ["target strings (ids, partial ids, head(s), label@head, rev+N) are resolved by the real "
            "_parse_upgrade_target and handed to the model as revision ids: C01 is planner-after-resolution, "
            "target resolution itself is C16",
            "order oracle: the stored order of _normalized_resolved_dependencies is observed and passed to the model; "
            "the theorems hold for every order (ndeps_ok only constrains the set)"]
+TRUSTED = TRUSTED + ["suite cmd (whole command): SQLite/SQLAlchemy execute the bookkeeping statements as the list model says; the script files, env.py and alembic.command.upgrade are the real ones; the set-iteration orders of _add_branches and of _normalized_resolved_dependencies are observed from the RevisionMap the command itself built (in-process subclass that records and delegates) and handed to the model as oracles, their CONTENT is recomputed by the model and compared"]
 ASSUME = ["history loads (acyclic, references present)", "current rows are revision ids of the history"]
 RULE = ("exhaustive: every acyclic history on <=4 revisions (none/down_revision/depends_on per earlier revision), identity and "
         "reversed load order, every antichain of revisions as current rows, targets {each id, heads, id+1, +1, +2}; "
         "labelled family: every acyclic history on <=3 (sampled for 4) revisions with a branch label on each revision in turn, every antichain state, requests {label@head, label@+1, label@+2, head}; seeded random: histories of 5-10 revisions (merges, depends_on, redundant parents, branch labels) with rows reached by "
         "random upgrade/downgrade/stamp commands of the real planner, targets incl. head, label@head, partial ids, rev+N. "
         "plus end-to-end runs (real script files, env.py, command.upgrade on SQLite: the plan is the order in which upgrade() functions actually ran; 40 quick / 1500 thorough). thorough adds all load orders for <=4 and 40x the random budget. non-trivial = non-empty plan; distinct by encoded case")
+RULE = RULE + (" || suite cmd, the whole command end to end (real script directory, env.py, SQLite, alembic.command.upgrade with the target string exactly as typed; observed: which scripts ran in which order, the version table afterwards, the exception class): EVERY acyclic history of <=3 revisions x EVERY antichain version table x every target spelling of a fixed list (ids, partial ids, head(s), base, +N/-N, id+N/id-N, junk, ranges a:b), the same with a branch label on each revision in turn (label@head, label@+N/-N, label@id, label), 40 sampled (thorough: all 729) histories of 4 revisions, seeded random histories of 4-8 revisions with labels, merges and depends_on; compared exactly with Model.Command.run_command and judged by Spec.Command.check_cmd")
 EXHAUSTIVE = {"quick": True, "thorough": True}
 CASE_TIMEOUT = 10
 DESIGN_REF = "DESIGN.md section 5 C01, Appendix A"
